@@ -15,10 +15,10 @@ PROPERTY_ID = "C18"
 LEVEL = "exploration"
 RULE = ("Terms are described by recipes (Term(functor,*args), Constant(value), Var(name), Not(functor,child), "
         "And, Or, Clause, list2term / '.'-chains, raw int / None engine variables as arguments, or text handed to "
-        "the parser). The bounded-exhaustive universe takes ~70 abstract terms (atoms a, b, 'q a', []; 1, 1.0, -1, "
+        "the parser). The bounded-exhaustive universe (716 recipes) takes 75 abstract terms (atoms a, b, 'q a', []; 1, 1.0, -1, "
         "0.0, -0.0; \"a\"; variables A, B, _; atom '1'; f/1, g/2 over them; \\+/not; conjunction, disjunction, "
         "clause; lists with and without tail; two levels of nesting) and builds each in every way the API offers "
-        "(plain / quoted functor, Constant vs Term, Var vs Term, Not('\\+') / Not('not') / Term('\\+'), And vs "
+        "(plain / quoted functor, Constant vs Term, Var vs Term vs Constant, Not('\\+') / Not('not') / Term('\\+'), And vs "
         "Term(','), list2term vs '.'-chain, parsed text vs constructed; argument style varied uniformly). "
         "Sub-check pairs: all ordered pairs of the universe (quick: seed-dependent sample) plus Hypothesis pairs of "
         "two random concretisations of one random abstract term of depth <= 4 (or of two different ones). Sub-check "
@@ -36,6 +36,8 @@ ASSUMPTIONS = [
     "'ProbLog's unification treats them as identical' is read as: the goal A = B succeeds for the two ground terms "
     "(engine route), cross-checked with engine_unify.unify_value",
     "parsed terms are cached per text inside a shard (parsing is a pure function of the text)",
+    "root-cause labels in Failure.sig and the KNOWN_CLASSES predicates are computed from the recipes alone; that "
+    "the recipe recorded next to a parsed text describes the parser's output is verified when the text is parsed",
 ]
 
 # ------------------------------------------------------------------------------------------------ recipes
@@ -306,7 +308,7 @@ def as_parsed(a, quoted=False, neg_functor="\\+"):
 
 
 def n_variants(a):
-    return {"atom": 5, "int": 2, "float": 2, "str": 2, "var": 3, "cmp": 4, "neg": 6, "and": 4, "or": 4,
+    return {"atom": 5, "int": 2, "float": 2, "str": 2, "var": 4, "cmp": 4, "neg": 6, "and": 4, "or": 4,
             "clause": 4, "list": 4, "ivar": 1, "anon": 1}[a[0]]
 
 
@@ -354,6 +356,8 @@ def concretise(a, bits, pos):
             return parsed()
         if b == 2:
             return ["T", a[1], []]
+        if b == 3:
+            return ["C", a[1]]
         return ["V", a[1]]
     if k == "ivar":
         return ["I", a[1]]
@@ -567,82 +571,79 @@ def _triple_strategy():
 
 # ------------------------------------------------------------------------------------------------ root causes
 
-def _is_term(x):
-    from problog.logic import Term
+def _ctext(c):
+    """Text of a normalised constant node ("C", type name, value)."""
+    return c[2] if c[1] == "str" else str(c[2])
 
-    return isinstance(x, Term)
 
-
-def difference(x, y):
-    """Root-cause labels of all structural differences between two built terms, joined by ','."""
-    from problog.logic import Constant, Var, Not
-
+def difference(ra, rb):
+    """Root-cause labels of all structural differences between the terms two recipes build, joined by ','.
+    Computed from the recipes alone (normalise(r, ()) mirrors the structure of the built term; for parsed
+    text this is verified in build())."""
     labels = set()
-    stack = [(x, y)]
+    stack = [(normalise(ra, ()), normalise(rb, ()))]
     while stack:
         s, t = stack.pop()
-        if not _is_term(s) or not _is_term(t):
-            if s is None and t is None:
-                continue
-            if type(s) is int and type(t) is int and s == t:
-                continue
-            labels.add("engine-variable")
+        ks, kt = s[0], t[0]
+        if ks in ("I", "None") or kt in ("I", "None"):
+            if s != t:
+                labels.add("engine-variable")
             continue
-        if isinstance(s, Var) or isinstance(t, Var):
-            if isinstance(s, Var) and isinstance(t, Var):
-                if s.functor != t.functor:
+        if ks == "V" or kt == "V":
+            if ks == kt:
+                if s[1] != t[1]:
                     labels.add("different-symbols")
                 continue
-            other = t if isinstance(s, Var) else s
-            v = s if isinstance(s, Var) else t
-            if other.arity == 0 and str(other.functor) == str(v.functor):
-                labels.add("var-vs-constant" if isinstance(other, Constant) else "var-vs-term")
+            v, o = (s, t) if ks == "V" else (t, s)
+            if o[0] == "C" and o[1] == "str" and o[2] == v[1]:
+                labels.add("var-vs-constant")
+            elif o[0] == "T" and not o[2] and o[1] == v[1]:
+                labels.add("var-vs-term")
             else:
                 labels.add("different-symbols")
             continue
-        cs, ct = isinstance(s, Constant), isinstance(t, Constant)
-        if cs and ct:
-            fs, ft = s.functor, t.functor
-            if type(fs) is type(ft):
-                if type(fs) is float and fs == ft and str(fs) != str(ft):
-                    labels.add("negative-zero")
-                elif fs != ft:
-                    labels.add("different-symbols")
-            elif str(fs) == str(ft):
+        if ks == "C" and kt == "C":
+            if s[1] == t[1]:
+                if s[2] != t[2]:
+                    if s[1] == "float" and float(s[2]) == float(t[2]):
+                        labels.add("negative-zero")
+                    else:
+                        labels.add("different-symbols")
+            elif _ctext(s) == _ctext(t):
                 labels.add("constant-value-type")
             else:
                 labels.add("different-symbols")
             continue
-        if cs != ct:
-            c, o = (s, t) if cs else (t, s)
-            if o.arity == 0 and _strip(str(c.functor)) == _strip(str(o.functor)):
-                if isinstance(c.functor, str):
+        if ks == "C" or kt == "C":
+            c, o = (s, t) if ks == "C" else (t, s)
+            if o[0] == "T" and not o[2] and _strip(_ctext(c)) == _strip(o[1]):
+                if c[1] == "str":
                     labels.add("constant-vs-term")
-                    if str(c.functor) != str(o.functor):
+                    if _ctext(c) != o[1]:
                         labels.add("quoted-vs-unquoted-atom")
                 else:
                     labels.add("atom-vs-number")
             else:
                 labels.add("different-symbols")
             continue
-        # two Terms (possibly Not/And/Or/Clause)
-        if s.arity != t.arity:
+        # compound / atom nodes: T, N, A, O, Cl
+        if len(s[2]) != len(t[2]):
             labels.add("different-symbols")
             continue
-        fs, ft = str(s.functor), str(t.functor)
+        fs, ft = s[1], t[1]
         if fs != ft:
-            if isinstance(s, Not) and isinstance(t, Not):
+            if ks == "N" and kt == "N":
                 labels.add("not-functor")
             elif _strip(fs) == _strip(ft):
                 labels.add("quoted-vs-unquoted-atom")
-            elif {_strip(fs), _strip(ft)} == {"\\+", "not"}:
+            elif {_strip(fs), _strip(ft)} == {"\\+", "not"} and len(s[2]) == 1:
                 labels.add("not-functor")
             else:
                 labels.add("different-symbols")
                 continue
-        if type(s) is not type(t):
+        if ks != kt:
             labels.add("operator-class-vs-term")
-        stack.extend(zip(s.args, t.args))
+        stack.extend(zip(s[2], t[2]))
     return ",".join(sorted(labels)) if labels else "identical-structure"
 
 
@@ -724,12 +725,25 @@ def normalise(r, erase):
     raise ValueError(r)
 
 
+_LABELS = {
+    "quote": ("quoted-vs-unquoted-atom",),
+    "not": ("not-functor",),
+    "opclass": ("operator-class-vs-term",),
+    "const": ("constant-vs-term",),
+    "var": ("var-vs-term", "var-vs-constant"),
+    "num": ("constant-value-type", "atom-vs-number"),
+    "negzero": ("negative-zero",),
+}
+
+
 def differs_by(case, what):
+    """The two recipes describe the same term up to the listed discrepancies (ALL_DISCREPANCIES), and a
+    discrepancy of kind `what` is among their structural differences."""
     ra, rb = case["a"], case["b"]
     if normalise(ra, ALL_DISCREPANCIES) != normalise(rb, ALL_DISCREPANCIES):
         return False
-    rest = tuple(x for x in ALL_DISCREPANCIES if x != what)
-    return normalise(ra, rest) != normalise(rb, rest)
+    labels = difference(ra, rb).split(",")
+    return any(l in labels for l in _LABELS[what])
 
 
 KNOWN_CLASSES = {
@@ -805,7 +819,7 @@ def _pair_failures(ra, rb, a, b, want_engine):
     da, db = render_recipe(ra), render_recipe(rb)
 
     def why():
-        return difference(a, b)
+        return difference(ra, rb)
 
     # reflexive (same object, and a second build of the same recipe)
     for r, x, d in ((ra, a, da), (rb, b, db)):
@@ -922,7 +936,7 @@ def check_triple(case):
     if premises:
         feats.append("premises-hold")
         if not ac:
-            cause = "%s/%s" % (difference(a, b), difference(b, c))
+            cause = "%s/%s" % (difference(rs[0], rs[1]), difference(rs[1], rs[2]))
             fails.append(_fail("not-transitive", cause, "a = %s, b = %s, c = %s: a == b and b == c but a != c"
                                % tuple(render_recipe(r) for r in rs)))
     distinct = len(set(repr(r) for r in rs))
